@@ -71,7 +71,8 @@ def project(out, name):
         return {"o": "value", "k": k, "p": p}
     if out["o"] == "throw":
         return {"o": "throw", "k": out["cls"], "p": ""}
-    return {"o": out["o"], "k": out.get("type", "none") if out["o"] == "host" else "none", "p": mask(out.get("where", ""))}
+    # host exception: only its type is compared (the site string may contain the property name by coincidence)
+    return {"o": out["o"], "k": out.get("type", "none") if out["o"] == "host" else "none", "p": ""}
 
 
 ERRCLS = ("function __cls(e){ if (e instanceof TypeError) return 'TypeError'; if (e instanceof ReferenceError) return 'ReferenceError';"
